@@ -699,3 +699,87 @@ def rule_shared_windows(check, rule, cg=None):
                                 witness='two threads retrieving the signature of the same function for the first time')
     check.holds(rule, '-', 'no unreviewed add/remove window on shared state in the retrieval closure (%d functions scanned)' % len(keys),
                 key='shared-window|scan')
+
+
+def rule_thread_local_access(check, rule):
+    """C17.R1d / C13.R6c: an attribute of a `threading.local()` object exists only in the thread that assigned it.  Assigning it
+    once in the owner's __init__ (executed in the importing thread for module-level singletons) leaves every other thread
+    without it; each read must therefore tolerate its absence (AttributeError handler or getattr default) and create it
+    per thread."""
+    repo = check.repo
+    n = 0
+    for m in repo.modules.values():
+        for ci in m.classes.values():
+            locals_ = set()
+            for meth in ci.methods.values():
+                for node in ast.walk(meth.node):
+                    if isinstance(node, ast.Assign) and isinstance(node.value, ast.Call) and norm(node.value.func).endswith('threading.local'):
+                        for t in node.targets:
+                            if isinstance(t, ast.Attribute):
+                                locals_.add(t.attr)
+            if not locals_:
+                continue
+            for meth in ci.methods.values():
+                for node in ast.walk(meth.node):
+                    if isinstance(node, ast.Attribute) and isinstance(node.ctx, ast.Load) and isinstance(node.value, ast.Attribute) \
+                            and node.value.attr in locals_ and isinstance(node.value.value, ast.Name):
+                        n += 1
+                        t = node
+                        tolerant = False
+                        while t is not None and t is not meth.node:
+                            par = getattr(t, '_parent', None)
+                            if isinstance(par, ast.Try) and t in par.body and any(
+                                    h.type is None or any(x in norm(h.type) for x in ('AttributeError', 'Exception')) for h in par.handlers):
+                                tolerant = True
+                            t = par
+                        key = '%s|thread-local-read|%s.%s' % (meth.key, node.value.attr, node.attr)
+                        if tolerant:
+                            check.holds(rule, site_of(meth, node), 'self.%s.%s is read under an AttributeError handler (created per thread on first use)'
+                                        % (node.value.attr, node.attr), key=key)
+                        else:
+                            check.violation(rule, site_of(meth, node), 'self.%s is a threading.local(): its attribute %r exists only in the thread that '
+                                            'assigned it, and this read does not tolerate its absence -- in any other thread it raises '
+                                            'AttributeError (swallowed by inspect as "no __signature__": the undecorated signature is reported)'
+                                            % (node.value.attr, node.attr), key=key,
+                                            witness='inspect.signature(decorated) called from a worker thread')
+    check.floor(rule, 'reads of thread-local attributes', n, 1)
+
+
+def rule_flag_published_last(check, rule):
+    """C17.R6: a one-time transformation guarded by a flag (`if not self.<flag>: ...; self.<flag> = True`) must set the
+    flag after the state it announces: with the flag set first, a second thread arriving in between skips the block and
+    uses the untransformed state."""
+    repo = check.repo
+    n = 0
+    for m in repo.modules.values():
+        for ci in m.classes.values():
+            for meth in ci.methods.values():
+                selfn = meth.params()[0][0] if meth.params()[0] else None
+                for node in ast.walk(meth.node):
+                    if not isinstance(node, ast.If):
+                        continue
+                    t = node.test
+                    if not (isinstance(t, ast.UnaryOp) and isinstance(t.op, ast.Not) and isinstance(t.operand, ast.Attribute)
+                            and isinstance(t.operand.value, ast.Name) and t.operand.value.id == selfn):
+                        continue
+                    flag = t.operand.attr
+                    stores = []
+                    for i, st_ in enumerate(node.body):
+                        for x in ast.walk(st_):
+                            if isinstance(x, ast.Attribute) and isinstance(x.ctx, ast.Store) and isinstance(x.value, ast.Name) and x.value.id == selfn:
+                                stores.append((i, x.attr, st_))
+                    fl = [s_ for s_ in stores if s_[1] == flag and isinstance(s_[2], ast.Assign) and isinstance(s_[2].value, ast.Constant)
+                          and s_[2].value.value is True]
+                    others = [s_ for s_ in stores if s_[1] != flag]
+                    if not fl or not others:
+                        continue
+                    n += 1
+                    key = '%s|flag-last|%s' % (meth.key, flag)
+                    if fl[0][0] < max(o[0] for o in others):
+                        check.violation(rule, site_of(meth, fl[0][2]), 'self.%s is set to True before self.%s is updated: a thread that arrives in '
+                                        'between sees the flag, skips the block and works with the untransformed value'
+                                        % (flag, others[-1][1]), key=key,
+                                        witness='first look-ups of an emulating forger wrapper on __init_subclass__ racing')
+                    else:
+                        check.holds(rule, site_of(meth, fl[0][2]), 'self.%s is set after the state it announces' % flag, key=key)
+    check.floor(rule, 'flag-guarded one-time transformations', n, 1)
